@@ -9,7 +9,7 @@ CONSTANTS
   InitRules <- mcInitRules
   Ops <- mcOps
   ProbeLrus <- mcProbe
-  MaxLevel = 4
+  MaxLevel = 6
   EmitT = FALSE
 INVARIANT ReportsAgree
 INVARIANT Refines
